@@ -287,6 +287,68 @@ func c05(args []string) int {
 		}
 		return d
 	}
+	// Daemon-mode phase (c05daemon.go): the monitors, not explicit syncs, must bring the replica up to date after
+	// one failing storage call at start-up.
+	type dj struct {
+		st c05DaemonStart
+		k  int
+	}
+	var djobs []dj
+	for _, st := range c05DaemonStarts() {
+		for k := 1; k <= c05DaemonCalls; k++ {
+			djobs = append(djobs, dj{st, k})
+		}
+	}
+	var daemonRuns, daemonNotReached atomic.Int64
+	daemonPoints := map[string]int{}
+	{
+		var idx atomic.Int64
+		var wg sync.WaitGroup
+		for w := 0; w < 8; w++ {
+			wg.Add(1)
+			go func() {
+				defer wg.Done()
+				for {
+					i := int(idx.Add(1) - 1)
+					if i >= len(djobs) {
+						return
+					}
+					j := djobs[i]
+					probs, reached, point, herr := c05DaemonRun(j.st, j.k)
+					if herr != nil {
+						mu.Lock()
+						harnessErr = herr
+						mu.Unlock()
+						return
+					}
+					daemonRuns.Add(1)
+					if !reached {
+						daemonNotReached.Add(1)
+					}
+					mu.Lock()
+					daemonPoints[reDigits.ReplaceAllString(point, "#")]++
+					mu.Unlock()
+					if len(probs) > 0 {
+						// replay-twice rule: the same start state and failing call must fail again
+						again, _, _, _ := c05DaemonRun(j.st, j.k)
+						if !sameProblems(probs, again) {
+							mu.Lock()
+							harnessErr = fmt.Errorf("daemon phase not reproducible: %s call %d: %v vs %v", j.st.Name, j.k, probs, again)
+							mu.Unlock()
+							return
+						}
+						for _, p := range probs {
+							rep.Report(&ev.Violation{Kind: p.Kind, Signature: fmt.Sprintf("%s|daemon/%s|%s", p.Kind, j.st.Name, reDigits.ReplaceAllString(point, "#")),
+								Detail: map[string]any{"start": j.st, "failing_call": j.k, "point": point, "problem": p.String()}})
+						}
+					}
+				}
+			}()
+		}
+		wg.Wait()
+		evals += daemonRuns.Load()
+		fmt.Printf("[C05] daemon-mode phase: runs=%d (fault not reached in %d) distinct failing-call classes=%d\n", daemonRuns.Load(), daemonNotReached.Load(), len(daemonPoints))
+	}
 	var quickSingles [][]job // quick tier: the single-deviation jobs per scenario, for the pair phase below
 	for _, sc := range scs {
 		base := c05Run(sc, nil)
@@ -405,6 +467,8 @@ func c05(args []string) int {
 			"evaluations": evals, "distinct_nontrivial": len(outcomes),
 			"rule":    "deviation-bounded enumeration: for each scenario every client call is numbered; all runs with 0 deviations, every single deviation of the call's menu at every call (quick+thorough), every pair of deviations with the second point re-derived from the run under the first (thorough); oracle after EVERY client call: no hole in remote level-0, restore(latest) succeeds and equals a committed source state; at every acknowledgement: remote level-0 max >= local TXID and page-exact restore; after the fault-free suffix: acknowledged, page-exact, no gap in levels >= 1; distinct = (acks, failed ops, replica shape) classes",
 			"samples": samples, "exhaustive": exhaustive, "quick_pairs_complete_for": pairsComplete, "scenarios": reports, "deviation_runs": devRuns,
+			"daemon_mode_runs": daemonRuns.Load(), "daemon_mode_fault_not_reached": daemonNotReached.Load(), "daemon_mode_failing_call_classes": daemonPoints,
+			"daemon_mode_rule": fmt.Sprintf("a database replicated before is opened by new litestream objects whose DB and replica monitors run at 1 ms; the K-th storage call (K=1..%d; start states: local LTX state kept / removed) fails once; the application commits four times; with no explicit sync the replica must reach the local position and restore page-exactly within %s of each commit (normally milliseconds); exhaustive in K, not in thread schedules", c05DaemonCalls, c05DaemonWait),
 		}}
 	if err := ev.Write(e); err != nil {
 		fmt.Fprintln(os.Stderr, err)
